@@ -46,7 +46,7 @@ Proof. vm_compute. reflexivity. Qed.
            break
        finally:
            x = 2
-   use(x)               # x is 10 or 2 here; the checker reports {1, 10} *)
+   use(x)               # x is 10 or 2 here; the checker used to report {1, 10}, now {1, 2, 10} *)
 Definition w_fin : block :=
   blk [SAssign 1 10;
        SLoop false (blk [STry (blk [SAssign 1 1; SBreak]) HNil BNil (blk [SAssign 1 2])]) BNil;
@@ -69,11 +69,9 @@ Proof.
   - cbn [path_b]. left. exists [(1, 2)], []. split; [cbn; auto|]. split; [cbn; auto|reflexivity].
 Qed.
 
-Lemma w_fin_not_reported : ~ In 2 (reported w_fin 99).
-Proof. vm_compute. intros [H|[H|H]]; try discriminate; exact H. Qed.
-
-Lemma w_fin_guard : lower_ok w_fin = false.
-Proof. vm_compute. reflexivity. Qed.
+(* since visit_Try hands the scope after the finally block to the loop, 2 is reported *)
+Lemma w_fin_facts : lower_ok w_fin = true /\ strict_reach w_fin 99 2 /\ reported w_fin 99 = [1; 2; 10].
+Proof. split; [vm_compute; reflexivity|]. split; [exact w_fin_reach|vm_compute; reflexivity]. Qed.
 
 (* a non-trivial program inside the proved fragment:
    if cond(): x = 1
